@@ -83,7 +83,7 @@ PLANS = {
                  'shared right-hand sides, start variable on a right-hand side, useless variables; variables renamed (A-Z permutation / multi-letter) and sets '
                  'list-shuffled per case; per case: cfg_to_chomsky, the five phase functions in pipeline order (each on the previous output) and '
                  'cfg_apply_chomsky(G, phase, hint) with clashing and non-clashing hints (evaluations counts calls). Oracle: bounded language equality '
-                 '(words <= 4..7 depending on |Sigma|, reference fixpoint on both sides), phase postconditions, V_before subset of V_after, new start variable new, '
+                 '(words <= 4..7 depending on |Sigma|, reference fixpoint on both sides), phase postconditions, new start variable not among the old variables, '
                  'validity, argument snapshot incl. rule order. distinct = distinct abstract grammar; non-trivial = >= 2 words within the bound and some phase after the first changes the rule set.'),
         'schedule_measure': 'distinct (abstract grammar, iteration order of its V and Sigma sets) pairs',
         'assumptions': COMMON_ASSUMPTIONS + ['language comparison is bounded in word length (can refute, not prove, equality)',
